@@ -7,14 +7,20 @@ from pvlib import Check, run_tlc, run_cases, payloads, ndjson
 POOL = [("a3", "[1, 2, 3]", "Arr"), ("a5", "[1, 2, 3, 4, 5]", "Arr"), ("a6", "[6, 5, 4, 3, 2, 1]", "Arr"), ("a7", "[[1], [2, 3], 4, 5, 6, 7, 8]", "Arr"), ("a0", "[]", "Arr"),
         ("s1", '"hello"', "Str"), ("s2", '"ab,cd"', "Str"), ("o1", "{x: 1, y: 2}", "Obj"), ("o2", "o1.bear({z: 3})", "Obj"), ("o3", "{y: 5, w: [1, 2, 3]}", "Obj"),
         ("m1", "%{1: 'a, \"k\": 'b, [1]: 'c}", "Map"), ("r1", "(1:10:2)", "Range"), ("f1", "{|x| x + 1}", "Func"), ("e1", "1.try.nosuchprop.err", "Err"),
-        ("v1", "1.try", "EitherVal"), ("n1", "5", "Int"), ("q1", "1.5", "Float")]
+        ("v1", "1.try", "EitherVal"), ("n1", "5", "Int"), ("q1", "1.5", "Float"),
+        # a str that is the start of a str range, an int descendant that is a bound of an int range
+        ("s3", '"ab"', "Str"), ("r2", '(s3:"af")', "Range"), ("b1", "2.bear({q: 1})", "Int"), ("r3", "(b1:4)", "Range"), ("r4", "(true:3)", "Range")]
+# what the interpreter's own accessors say about a live value (the worker's fingerprint reads the Go fields; a cache beside them would go unseen)
+VIEWS = {"Str": "[{n}.len, {n}.rev, {n}[0], {n}[-1], {n}[1:], {n}@{{|c| c}}, {n}.uc, {n} + \"\"]", "Range": "[{n}.A, {n}.start, {n}.stop, {n}.step, {n}.S, {n}@{{|e| e}}]",
+         "Arr": "[{n}.len, {n}.rev, {n}[0], {n}[-1], {n}@{{|e| e}}, {n}.S]", "Obj": "[{n}.keys, {n}.values, {n}.S, {n}.items]", "Map": "[{n}.keys, {n}.values, {n}.S, {n}.len]",
+         "Int": "[{n} + 0, {n}.S, {n}.proto == Int]"}
 PROTOS = {"Arr": ["Arr", "Iterable", "Obj", "BaseObj"], "Str": ["Str", "Comparable", "Iterable", "Obj", "BaseObj"], "Obj": ["Obj", "Iterable", "BaseObj"],
           "Map": ["Map", "Iterable", "Obj", "BaseObj"], "Range": ["Range", "Iterable", "Obj", "BaseObj"], "Func": ["Func", "Obj", "BaseObj"], "Err": ["Err", "Obj", "BaseObj"],
           "EitherVal": ["EitherVal", "Either", "Wrappable", "Obj", "BaseObj"], "Int": ["Int", "Num", "Comparable", "Obj", "BaseObj"], "Float": ["Float", "Num", "Comparable", "Obj", "BaseObj"]}
 SKIP = {"p", "puts", "print", "exit", "assert", "assertEq", "assertRaises", "import", "invite!", "_incBy", "repr", "try", "readline", "readlines", "read",
         "write", "serve", "serveBackground", "eval", "evalEnv", "new", "call", "bear", "_iter", "next", "_name", "tap"}
 # operations written out: the ones that build on their operands
-TEMPLATES = ["{a} + {b}", "{a} + [4]", "{a} + \"4]\"", "[*{a}, 4]", "[*{a}, *{b}]", "[0, *{a}]", "{a}[1:]", "{a}[::-1]", "{a} * 2", "{{**{a}, k: 1}}", "{{k: 1, **{a}}}", "{{**{a}, **{b}}}", "%{{**{a}, 9: 9}}",
+TEMPLATES = ["{a} + {b}", "{a} + [4]", "{a} + \"4]\"", "[*{a}, 4]", "[*{a}, *{b}]", "[0, *{a}]", "{a}[1:]", "{a}[::-1]", "{a}[{b}]", "{a}.at([{b}])", "{a} * 2", "{{**{a}, k: 1}}", "{{k: 1, **{a}}}", "{{**{a}, **{b}}}", "%{{**{a}, 9: 9}}",
              "%{{**{a}, **{b}}}", "{a}.bear({{q: 1}})", "{a}.bro({{q: 1}})", "{a}.patch(x: 9)", "{a}.del('x)", "{a}@{{|x| x}}", "{a}@([9]){{|x| x}}", "{a}$([]){{|acc, x| [*acc, x]}}",
              "{{|k: 0| \\_}}(**{a}, **{b})", "{{|x| \\0}}(*{a}, *{b})", "{{|k: 0| [k, \\_]}}(**{a})", "{a}.push(7)", "{a}.unshift(7)", "{a}.assign(0, 7)", "{a}.sort", "{a}.rev", "{a}.uniq",
              "{a}.concat({b})", "{a}.flatten", "{a}.zip({b})", "{a}.uc", "{a} / \",\"", "{a}.sub(\"l\", \"L\")", "{a}.S", "{a}.A", "{a}.O", "{a}.M", "{a}.items", "{a}.keys", "{a}.values",
@@ -33,10 +39,11 @@ def hh(s):
 
 def history_program(ops):
     """ops: list of source expressions over pool / earlier result names (r1, r2, ..)"""
-    lines = [f"{n} := {src}" for n, src, _ in POOL] + ["fp()"]
+    views = "fp({" + ", ".join(f"{n}: nil.try.{{|u0| {VIEWS[t].format(n=n)}}}.val" for n, _, t in POOL if t in VIEWS) + "})"
+    lines = [f"{n} := {src}" for n, src, _ in POOL] + [views]
     for k, e in enumerate(ops):
         lines.append(f"w{k + 1} := nil.try.{{|u0| {e}}}.val")
-        lines.append("fp()")
+        lines.append(views)
     return "\n".join(lines)
 
 
@@ -120,10 +127,10 @@ def run():
         order = {n: k for k, n in enumerate(names)}
         def known(entry):
             n = entry.split("=", 1)[0]
-            return n in order or (n[0] == "w" and n[1:].isdigit()) or n.startswith("#k")
+            return n in order or (n[0] == "w" and n[1:].isdigit()) or n.startswith("#k") or n.startswith("#v")
         for s in snaps:
             new = [e.split("=", 1)[0] for e in s if known(e) and e.split("=", 1)[0] not in order]
-            for n in sorted(new, key=lambda n: (n[0] != "#", int(n[2:] if n[0] == "#" else n[1:]))):    # within one snapshot: kept values precede the result built from them
+            for n in sorted(new, key=lambda n: (n[0] != "#", (0, n) if n.startswith("#v") else (1, int(n[2:] if n[0] == "#" else n[1:])))):    # within one snapshot: kept values precede the result built from them
                 order[n] = len(order)
         snaps = [sorted([e for e in s if known(e)], key=lambda e: order[e.split("=", 1)[0]]) for s in snaps]
         rows.append({"id": str(i), "snaps": [[hh(e) for e in s] for s in snaps]})
